@@ -24,7 +24,7 @@ PROPS = {
         bounds="fe64 limb arithmetic (add, sub, neg, negate_mut, mul, square, square_and_double, mul_small<121666>, to_packed, from_bytes): ALL limb vectors in class LOOSE "
                "(each limb <= 2^53-76), decided by z3 on the polynomial encoding of the MIR; bit-level obligations (decode/encode canonical, ==, sign, zero test, canonical "
                "scalar decoder, scalar bytes/bits/nibbles): all 2^256 (pairs of) byte strings by CBMC",
-        outside="precomputed tables (every entry is the multiple of B it stands for), GePrecomp::select (CBMC runs out of memory on the 30 KB constant table), scalar64 Barrett "
+        outside="GePrecomp::select (CBMC runs out of memory on the 30 KB constant table), scalar64 Barrett "
                 "reduction / multiplication mod L (z3 does not finish), point decode-encode round trip as a whole; scalar multiplication is covered by its digit/walk skeletons (C13/C14) "
                 "plus the group formulas here, under the table contract",
         assumptions=_MS,
